@@ -477,6 +477,12 @@ class Prov:
                     zb = _zipped(t)
                     if zb is not None:
                         return ("index", zb[int(name)], ("call", "core::iter::Zip::position", ()))
+                    # `for ((a, b), c) in xs.iter_mut().zip(ys.iter()).zip(zs.iter())`: the inner pair's halves run at the same position
+                    if t[0] == "index" and t[1][0] == "call" and t[1][1].rsplit("::", 1)[-1] == "zip" and len(t[1][2]) == 2:
+                        y = t[1][2][int(name)]
+                        while y[0] == "call" and y[1].rsplit("::", 1)[-1] in ("iter", "iter_mut", "into_iter", "by_ref") and len(y[2]) == 1:
+                            y = y[2][0]
+                        return ("index", y, t[2])
                 return ("field", t, name)
             if "dc" in e:
                 if t[0] == "agg" and t[2] == e["dc"]:
